@@ -55,6 +55,7 @@ type Ctx struct {
 	cache       map[string]*Interp
 	voc         *vocab
 	postConn    map[*types.Func]bool
+	passArg     map[*types.Func]int
 }
 
 func NewCtx(p *Program, prop, tier string) *Ctx {
